@@ -41,3 +41,57 @@ class UsedQubit:
 
     def ensures_set(self, obj, context, result):
         return singleton(dict_lookup(result, root(obj._alias_from)._name), phys(obj._alias_from, ival(obj._alias_index)))
+
+
+from jaqalpaq.core.algorithm.used_qubit_visitor import UsedQubitIndicesVisitor
+
+
+@contract("core.algorithm.used_qubit_visitor:UsedQubitIndicesVisitor.visit_default", props=["C13"])
+class UsedDefault:
+    """whatever is not a statement, qubit, register or parameter (numbers in particular) uses no qubit"""
+
+    def requires(self, obj, args, kwargs):
+        return isinstance(self, UsedQubitIndicesVisitor)
+
+    def ensures(self, obj, args, kwargs, result):
+        return isinstance(result, dict) and len(result) == 0
+
+    raises_only = ()
+
+
+from jaqalpaq.core.parameter import Parameter
+
+
+@contract("core.algorithm.used_qubit_visitor:UsedQubitIndicesVisitor.bind_argument", props=["C07", "C13"])
+class BindArgument:
+    """C07 (lexical scoping of arguments): an argument of a macro call is evaluated in the CALLER's scope before the
+    callee's parameters come into play - a parameter becomes what the caller's scope binds it to, a reference written
+    with the caller's parameters becomes the concrete qubit root[phys] it denotes there (no parameter is left in it for
+    the callee's scope to capture), anything else is passed as is"""
+
+    def requires(self, arg, context):
+        return (isinstance(self, UsedQubitIndicesVisitor) and isinstance(context, dict)
+                and implies(type_is(arg, Parameter), is_str(arg._name))
+                and implies(type_is(arg, NamedQubit) and (type_is(arg._alias_index, Parameter) or type_is(arg._alias_from, Parameter)), wf_pqubit(arg, context))
+                and implies(type_is(arg, NamedQubit), type_is(arg._alias_index, Parameter) or is_intconst(arg._alias_index) )
+                and implies(type_is(arg, NamedQubit), type_is(arg._alias_from, Parameter) or wf_reg(arg._alias_from)))
+
+    def raises_JaqalError(self, arg, context):
+        return ((type_is(arg, Parameter) and (len(context) == 0 or not has_key(context, arg._name)))
+                or (type_is(arg, NamedQubit) and (type_is(arg._alias_index, Parameter) or type_is(arg._alias_from, Parameter))
+                    and chain_bad(bound_reg(arg, context), ival(bound_idx(arg, context)))))
+
+    raises_only = ("JaqalError",)
+
+    def ensures_parameter(self, arg, context, result):
+        return implies(type_is(arg, Parameter), same(result, dict_lookup(context, arg._name)))
+
+    def ensures_scoped_reference(self, arg, context, result):
+        return implies(type_is(arg, NamedQubit) and (type_is(arg._alias_index, Parameter) or type_is(arg._alias_from, Parameter)),
+                       type_is(result, NamedQubit) and same(result._alias_from, root(bound_reg(arg, context)))
+                       and same(result._alias_index, phys(bound_reg(arg, context), ival(bound_idx(arg, context)))))
+
+    def ensures_other(self, arg, context, result):
+        return implies(not type_is(arg, Parameter)
+                       and not (type_is(arg, NamedQubit) and (type_is(arg._alias_index, Parameter) or type_is(arg._alias_from, Parameter))),
+                       same(result, arg))
